@@ -178,6 +178,10 @@ def type_hint(ty):
     return "v", ty   # list/set/dict/deque/fn/str/<ClassName>
 
 
+def is_dict_hint(h):
+    return h == "dict" or (h in CLASSES and CLASSES[h].isa == "dict")
+
+
 def HAS_PROP_FIELDS():
     return any(t.startswith("prop:") for c in CLASSES.values() for t in c.fields.values())
 
@@ -350,7 +354,7 @@ class Exec:
                 return BoolVal(False)
             if h in ("list", "deque"):
                 return L.slen(self.hget(st, "$seq", sv.t)) != 0
-            if h == "dict":
+            if is_dict_hint(h):
                 return L.slen(self.hget(st, "$dkeys", sv.t)) != 0
             if h in ("set", "frozenset") or (h in CLASSES and CLASSES[h].isa == "set"):
                 return self.set_nonempty(self.hget(st, "$set", sv.t))
@@ -444,7 +448,7 @@ class Exec:
             h = sv.hint
             if h in ("list", "deque") or (h in CLASSES and CLASSES[h].isa == "list"):
                 return self.hget(st, "$seq", sv.t)
-            if h == "dict":
+            if is_dict_hint(h):
                 return self.hget(st, "$dkeys", sv.t)
             if h in CLASSES and CLASSES[h].view and CLASSES[h].view.startswith("seq:"):
                 fld = CLASSES[h].view[4:]
@@ -476,7 +480,7 @@ class Exec:
             return Select(self.hget(st, "$dd", d.t), sv.t)
         if sv.kind == "v" and (sv.hint in ("set", "frozenset") or (sv.hint in CLASSES and CLASSES[sv.hint].isa == "set")):
             return self.hget(st, "$set", sv.t)
-        if sv.kind == "v" and sv.hint == "dict":
+        if sv.kind == "v" and is_dict_hint(sv.hint):
             return L.sset(self.hget(st, "$dkeys", sv.t))
         if sv.kind == "v" and sv.hint == "ddset":
             return self.hget(st, "$ddkeys", sv.t)
@@ -496,7 +500,7 @@ class Exec:
                 return Select(self.hget(st, "$set", container.t), x)
             if h in ("list", "deque") or (h in CLASSES and CLASSES[h].isa == "list"):
                 return L.mem(self.hget(st, "$seq", container.t), x)
-            if h == "dict":
+            if is_dict_hint(h):
                 return L.mem(self.hget(st, "$dkeys", container.t), x)
             if h == "ddset":
                 return Select(self.hget(st, "$ddkeys", container.t), x)
@@ -1007,7 +1011,7 @@ def _patch_engine():
                 return base.items[k]
             except Exception:
                 pass
-        if base.kind == "v" and base.hint == "dict":
+        if base.kind == "v" and is_dict_hint(base.hint):
             k = self.to_v(idx)
             if m.checks is not None:
                 m.checks.append((L.mem(self.hget(st, "$dkeys", base.t), k), "KeyError", node))
@@ -1149,7 +1153,7 @@ def _patch_engine():
             return sv_int(L.strlen(a.t))
         if a.kind == "tuple":
             return sv_int(len(a.items))
-        if a.kind == "v" and a.hint == "dict":
+        if a.kind == "v" and is_dict_hint(a.hint):
             return sv_int(L.slen(self.hget(st, "$dkeys", a.t)))
         if self.is_setlike(a):
             return sv_int(L.slen(self.set_order(self.as_set(a, st))))
@@ -1572,7 +1576,7 @@ def _patch_engine():
 
     # ---- pure methods on containers
     def pm_get(self, recv, args, node, st, m):
-        if recv.kind == "v" and recv.hint == "dict":
+        if recv.kind == "v" and is_dict_hint(recv.hint):
             k = self.to_v(args[0])
             dflt = args[1] if len(args) > 1 else NONE
             has = L.mem(self.hget(st, "$dkeys", recv.t), k)
@@ -1631,13 +1635,13 @@ def _patch_engine():
     E.pm_index = pm_index
 
     def pm_values(self, recv, args, node, st, m):
-        if recv.kind == "v" and recv.hint == "dict":
+        if recv.kind == "v" and is_dict_hint(recv.hint):
             return SV("seq", L.smap(self.hget(st, "$dval", recv.t), self.hget(st, "$dkeys", recv.t)))
         raise OutOfSubset(".values()")
     E.pm_values = pm_values
 
     def pm_keys(self, recv, args, node, st, m):
-        if recv.kind == "v" and recv.hint == "dict":
+        if recv.kind == "v" and is_dict_hint(recv.hint):
             return SV("set", L.sset(self.hget(st, "$dkeys", recv.t)))
         raise OutOfSubset(".keys()")
     E.pm_keys = pm_keys
@@ -1849,7 +1853,7 @@ def _patch_exec():
         try:
             if isinstance(g.iter, ast.Call) and isinstance(g.iter.func, ast.Attribute) and g.iter.func.attr in ("items", "keys", "values") and not g.iter.args:
                 d = self.pev(g.iter.func.value, st, Mode(False))
-                if d.kind == "v" and d.hint == "dict":
+                if d.kind == "v" and is_dict_hint(d.hint):
                     n_src = L.slen(self.hget(st, "$dkeys", d.t))
             if n_src is None and self.is_pure(g.iter, st):
                 n_src = L.slen(self.as_seq(self.pev(g.iter, st, Mode(False, None, None)), st))
@@ -1881,7 +1885,7 @@ def _patch_exec():
                     and isinstance(g.iter, ast.Call) and isinstance(g.iter.func, ast.Attribute) and g.iter.func.attr == "items"
                     and [e.id for e in node.elt.elts if isinstance(e, ast.Name)] == [e.id for e in g.target.elts if isinstance(e, ast.Name)]):
                 d = self.pev(g.iter.func.value, st, Mode(False))
-                if d.kind == "v" and d.hint == "dict":
+                if d.kind == "v" and is_dict_hint(d.hint):
                     keys = self.hget(st, "$dkeys", d.t)
                     vals = self.hget(st, "$dval", d.t)
                     P = self.dict_filter_pred(g, st, vals)
@@ -1933,7 +1937,7 @@ def _patch_exec():
                     and len(g.target.elts) == 2 and isinstance(node.key, ast.Name) and isinstance(node.value, ast.Name)
                     and node.key.id == g.target.elts[0].id and node.value.id == g.target.elts[1].id):
                 d = self.pev(g.iter.func.value, st, Mode(False))
-                if d.kind == "v" and d.hint == "dict":
+                if d.kind == "v" and is_dict_hint(d.hint):
                     keys = self.hget(st, "$dkeys", d.t)
                     vals = self.hget(st, "$dval", d.t)
                     P = self.dict_filter_pred(g, st, vals)
@@ -1985,12 +1989,20 @@ def _patch_exec():
         for i, cl in enumerate(mon["inv"]):
             g = self.truth(self.pev(ast.parse(cl, mode="eval").body, rst, m), rst)
             self.oblige(st, g, f"monitor.inv[{i}].{tag}", node)
+        # two-state rely/guarantee clauses (e.g. "a counter never decreases"); old(e) = the state at the previous
+        # interference point.  Guarantee: this thread's own steps since then satisfy them; rely: so do the other threads'.
+        prev = st.ghost.get("$mon_prev", self.st0)
+        for i, cl in enumerate(mon.get("rely", [])):
+            g = self.truth(self.pev(ast.parse(cl, mode="eval").body, rst, Mode(True, prev)), rst)
+            self.oblige(st, g, f"monitor.guarantee[{i}].{tag}", node)
         st2 = st
         for d in mon["havoc"]:
             for nm, obj in self.modset_entry(d, rst, Mode(True)):
                 st2 = self.havoc_spot(st2, nm, obj)
         rst2 = st2.copy(env=rst.env)
         facts = [self.truth(self.pev(ast.parse(cl, mode="eval").body, rst2, m), rst2) for cl in mon["inv"]]
+        facts += [self.truth(self.pev(ast.parse(cl, mode="eval").body, rst2, Mode(True, rst)), rst2) for cl in mon.get("rely", [])]
+        st2 = st2.copy(ghost=dict(st2.ghost, **{"$mon_prev": rst2}))
         self.assumptions.add("monitor reading with interference: at every statement outside a lock, at every lock acquisition and around every call out of the monitor, other threads may change the shared locations arbitrarily subject to the monitor invariant; each such point first proves the invariant (guarantee)")
         return st2.assume(*facts)
     E.interfere = interfere
@@ -2125,7 +2137,7 @@ def _patch_exec():
             if isinstance(tgt.slice, ast.Slice):
                 raise OutOfSubset("slice store")
             def got_idx(ix, st3):
-                if b.kind == "v" and b.hint == "dict":
+                if b.kind == "v" and is_dict_hint(b.hint):
                     kk = self.to_v(ix)
                     keys = self.hget(st3, "$dkeys", b.t)
                     vals = self.hget(st3, "$dval", b.t)
@@ -2227,7 +2239,7 @@ def _patch_exec():
             if isinstance(tgt.slice, ast.Slice):
                 return self.del_slice(b, tgt, st2, ctx)
             def got_idx(ix, st3):
-                if b.kind == "v" and b.hint == "dict":
+                if b.kind == "v" and is_dict_hint(b.hint):
                     kk = self.to_v(ix)
                     keys = self.hget(st3, "$dkeys", b.t)
                     def cont(st4):
@@ -2258,6 +2270,8 @@ def _patch_exec():
                 # documented meaning: run the block, then re-raise the exception that was being handled
                 self.assumptions.add("util.safe_reraise(): runs the block, then re-raises the exception being handled (its documented meaning)")
                 return self.ex_block(s.body, st, ctx.with_(k=lambda st2: ctx.exc("<reraise>", st2, s)))
+            if self.c.monitor and txt in self.c.monitor.get("locks", []):
+                continue
             if not (txt.endswith("lock") or txt.endswith("mutex") or txt.endswith("_lock") or txt.endswith(".not_full") or txt.endswith(".not_empty")
                     or txt in self.c.callees and self.c.callees[txt] == "noop_cm"):
                 raise OutOfSubset(f"with {txt}")
@@ -2926,7 +2940,10 @@ def _patch_calls():
         f = node.func
         txt = ast.unparse(f)
         if node.keywords and any(kw.arg is None for kw in node.keywords):
-            raise OutOfSubset("**kwargs call")
+            # f(*a, **kw): only when the call-site spec names the arguments the contract sees (the actual ones are opaque)
+            _t, _sp = self.callee_target(txt) if txt in self.c.callees else (None, None)
+            if not (_sp is not None and "args" in _sp) and _t not in ("noop",):
+                raise OutOfSubset("**kwargs call")
         if txt in self.c.callees:
             tgt, spec = self.callee_target(txt)
             if spec is not None:
@@ -2936,7 +2953,14 @@ def _patch_calls():
                     # the assumed contract describes this call with exactly these arguments (e.g. sorted(..., reverse=True))
                     raise OutOfSubset(f"call `{ast.unparse(node)[:80]}` differs from the form its assumed contract describes: `{spec['expect'][:80]}`")
                 if "args" in spec:
-                    call = ast.Call(func=node.func, args=[ast.parse(a, mode="eval").body for a in spec["args"]], keywords=[])
+                    def _arg(a):
+                        if a.startswith("$"):       # "$i": the i-th actual positional argument of the call
+                            act = node.args[int(a[1:])]
+                            if isinstance(act, ast.Starred):
+                                raise OutOfSubset("call-site spec refers to a starred argument")
+                            return act
+                        return ast.parse(a, mode="eval").body
+                    call = ast.Call(func=node.func, args=[_arg(a) for a in spec["args"]], keywords=[])
                     ast.copy_location(call, node)
                     ast.fix_missing_locations(call)
                 recv_node = ast.parse(spec["recv"], mode="eval").body if spec.get("recv") else None
@@ -3316,7 +3340,7 @@ def _patch_calls():
     def bm_dict_pop(self, recv, args, node, st, ctx, k):
         kk = self.to_v(args[0])
         keys = self.hget(st, "$dkeys", recv.t)
-        val = SV("v", Select(self.hget(st, "$dval", recv.t), kk), self.types.get("values:" + ast.unparse(node.func.value)))
+        val = SV("v", Select(self.hget(st, "$dval", recv.t), kk), self.types.get("values:" + ast.unparse(node.func.value)) if isinstance(node.func, ast.Attribute) else None)
         has = L.mem(keys, kk)
         def present(st2):
             k(val, self.hset(st2, "$dkeys", recv.t, self.seq_remove(keys, kk)))
@@ -3336,6 +3360,13 @@ def _patch_calls():
         k(NONE, self.hset(st2, "$dkeys", recv.t, If(L.mem(keys, kk), keys, L.app(keys, kk))))
     E.bm_dict___setitem__ = bm_dict___setitem__
 
+    def bm_dict___getitem__(self, recv, args, node, st, ctx, k):
+        kk = self.to_v(args[0])
+        keys = self.hget(st, "$dkeys", recv.t)
+        self.branch_checks([(L.mem(keys, kk), "KeyError", node)], st, ctx,
+                           lambda st2: k(SV("v", Select(self.hget(st2, "$dval", recv.t), kk), None), st2))
+    E.bm_dict___getitem__ = bm_dict___getitem__
+
     def bm_dict___delitem__(self, recv, args, node, st, ctx, k):
         kk = self.to_v(args[0])
         keys = self.hget(st, "$dkeys", recv.t)
@@ -3353,7 +3384,7 @@ def _patch_calls():
         vals = self.hget(st, "$dval", recv.t)
         dflt = args[1] if len(args) > 1 else NONE
         has = L.mem(keys, kk)
-        hint = self.types.get("values:" + ast.unparse(node.func.value))
+        hint = self.types.get("values:" + ast.unparse(node.func.value)) if isinstance(node.func, ast.Attribute) else None
         def present(st2):
             k(SV("v", Select(vals, kk), hint), st2)
         def absent(st2):
@@ -3384,7 +3415,7 @@ def _patch_calls():
         vals = self.hget(st, "$dval", recv.t)
         if o.kind == "py" and isinstance(o.py, tuple) and o.py[0] == "pairs":
             okeys, ovals = o.py[1], o.py[2]
-        elif o.kind == "v" and o.hint == "dict":
+        elif o.kind == "v" and is_dict_hint(o.hint):
             okeys = self.hget(st, "$dkeys", o.t)
             ovals = self.hget(st, "$dval", o.t)
         else:
@@ -3495,6 +3526,34 @@ def _patch_calls():
                 continue
             bad = st.assume(c)
             bad = bad.copy(notes=bad.notes + (f"L{self.rel_line(node)}:{exc_name}",))
+            if fnc.modifies and exc_name in fnc.may_raise:
+                # the callee may have changed anything in its frame before raising: havoc the frame, then assume what its
+                # contract says about exceptional exits (exc_ensures of this exception class or of a base class of it)
+                bspots = []
+                star = False
+                for d in fnc.modifies:
+                    if d == "*":
+                        star = True
+                        continue
+                    bspots += sub.modset_entry(d, cst, m_pre)
+                if star:
+                    bad = bad.copy(heap={nm: self.fresh("H_" + nm.replace("$", "S_"), arr.sort()) for nm, arr in bad.heap.items()})
+                for nm, obj in bspots:
+                    bad = self.havoc_spot(bad, nm, obj)
+                na = self.fresh("alloc", SetS)
+                xx = Const("x", V)
+                bad = bad.assume(ForAll([xx], Implies(Select(bad.alloc, xx), Select(na, xx)), patterns=[Select(bad.alloc, xx)])).copy(alloc=na)
+                bpost = bad.copy(env=env)
+                efacts = []
+                for ename, clauses in fnc.exc_ensures.items():
+                    if exc_matches(exc_name.split("@")[0], ename):
+                        for cl in clauses:
+                            try:
+                                efacts.append(sub.truth(sub.pev(ast.parse(cl, mode="eval").body, bpost, Mode(True, cst, None, None)), bpost))
+                            except (OutOfSubset, ContractError):
+                                pass        # clause about the callee's locals at the raise: not visible to the caller
+                # frame condition of the exceptional exit (unallocated/other objects untouched) as for the normal exit
+                bad = bad.assume(*efacts) if efacts else bad
             ctx.exc(exc_name.split("@")[0], bad, node)
             if exc_name in fnc.raises:
                 st = st.assume(Not(c))
@@ -3592,7 +3651,8 @@ def _patch_run():
         if a.vararg:
             pnames.append(a.vararg.arg)
         if a.kwarg:
-            raise OutOfSubset("**kwargs parameter")
+            # **kw is bound to an opaque value; it may only be forwarded to calls whose spec does not look at it
+            pnames.append(a.kwarg.arg)
         self.param_names = pnames
         for nm in pnames:
             ty = self.types.get(nm)
